@@ -707,7 +707,13 @@ mod unstable {
                                     if let Formula::AtomicFormula(AtomicFormula::Comparison(c2)) =
                                         ct2
                                     {
-                                        if equality_comparison(c2) && i != j {
+                                        // Two structurally identical equalities (same variable, same term) are a
+                                        // duplicated conjunct, not a transitive pair: dropping "the other one" would
+                                        // drop both. Only the trivial `Y = Y` may be removed wholesale.
+                                        if equality_comparison(c2)
+                                            && i != j
+                                            && (c1 != c2 || c1.term == c1.guards[0].term)
+                                        {
                                             if let Some((keep_var, drop_var, drop_term)) =
                                                 transitive_equality(
                                                     c1.clone(),
